@@ -225,12 +225,21 @@ def script_hash(hist):
 
 
 def drive_and_validate(name, dictname, histories, spec="Trace_File", driver="drive", nshards=None,
-                       drive_timeout=180, tlc_timeout=1800, extra_script=None, keep=None):
+                       drive_timeout=180, tlc_timeout=1800, extra_script=None, keep=None, group_key=None,
+                       extra_specs=()):
     """Runs `histories` on the real library and validates every trace with TLC.
-    Returns dict with failures (global history indices), hangs, counts."""
+    Returns dict with failures (global history indices), hangs, counts.
+    group_key: histories with the same key stay in one shard, in order (needed by validators that
+    compare histories with each other).  extra_specs: further validators run on the same traces."""
     wd = workdir(name)
     nshards = nshards or MAXPAR
-    shards = shard(list(enumerate(histories)), nshards)
+    if group_key is None:
+        shards = shard(list(enumerate(histories)), nshards)
+    else:
+        groups = {}
+        for gi, h in enumerate(histories):
+            groups.setdefault(group_key(h), []).append((gi, h))
+        shards = [sum(g, []) for g in shard(list(groups.values()), nshards)]
     jobs = []
     for si, items in enumerate(shards):
         script = {"dict_path": os.path.join(DICTDIR, f"{dictname}.names.json"),
@@ -251,6 +260,10 @@ def drive_and_validate(name, dictname, histories, spec="Trace_File", driver="dri
         if nev == 0:
             return si, [], hung, 0, 0
         fails, notes, distinct = validate_trace(spec, tp, dictname, os.path.join(wd, f"md{si}"), timeout=tlc_timeout, keep=keep)
+        for xs in extra_specs:
+            f2, _, d2 = validate_trace(xs, tp, dictname, os.path.join(wd, f"md{si}x"), timeout=tlc_timeout, keep=keep)
+            fails += f2
+            distinct += d2
         return si, fails, hung, nev, distinct
 
     results = {"failures": [], "hangs": [], "events": 0, "tlc_states": 0, "histories": len(histories), "workdir": wd,
